@@ -1,0 +1,17 @@
+#ifndef BXDECAY0_PT192LOW_H
+#define BXDECAY0_PT192LOW_H
+
+namespace bxdecay0 {
+
+  class i_random;
+  class event;
+
+  void Pt192low(i_random & prng_, event & event_, const int levelkev_);
+
+} // end of namespace bxdecay0
+
+#endif // BXDECAY0_PT192LOW_H
+
+// Local Variables: --
+// mode: c++ --
+// End: --
